@@ -42,6 +42,11 @@ struct ReplayFile {
     /// The images the scenario refers to (indices in `scenario` point into this list).
     pool: Vec<Image>,
     scenario: Scenario,
+    /// The scenario's first operation must be the FIRST thing the process ever asks of the
+    /// library (no calibration load before it): whatever a loader learns once, from the first
+    /// file it sees, it learns from this scenario's first file.
+    #[serde(default)]
+    first_in_process: bool,
 }
 
 struct Args {
@@ -407,6 +412,41 @@ fn sweep_scenario(idx: usize, full: bool) -> Scenario {
     }
 }
 
+/// Run indices of the first-in-process stratum start here (far above any batch size).
+const FIRST_RUN_BASE: u64 = 1_000_000_000_000;
+
+/// Scenario `j` of the first-in-process stratum: image A (every rendered image in turn) is the
+/// first file the process loads; then the shipped list — or, every third time round, another
+/// image — is installed and loaded; then A again. Fault-free, whole-buffer reads.
+fn first_scenario(base_seed: u64, j: usize, n_images: usize) -> Scenario {
+    use scenario::{Op, Plan};
+    let rendered = n_images.saturating_sub(1).max(1);
+    let a = if n_images > 1 { 1 + j % rendered } else { 0 };
+    let round = j / rendered;
+    let mut rng = prng::Rng::new(prng::mix(base_seed ^ 0xF125_7000_0000_0003, j as u64));
+    let b = if round % 3 == 2 && n_images > 1 { 1 + rng.usize_below(rendered) } else { 0 };
+    let load = |client| Op::Load { client, plan: Plan::default(), must_succeed: false, spelling: 0 };
+    let mut ops = vec![load(0), Op::Query { client: 0, probe_seed: rng.next_u64(), full: false }];
+    for (k, img) in [b, a].into_iter().enumerate() {
+        ops.push(Op::Replace { image: img });
+        ops.push(load(1 - k % 2));
+        ops.push(Op::Query { client: 1 - k % 2, probe_seed: rng.next_u64(), full: false });
+    }
+    // the provider loaded first is asked again at the end
+    ops.push(Op::Query { client: 0, probe_seed: rng.next_u64(), full: false });
+    Scenario {
+        seed: prng::mix(base_seed, FIRST_RUN_BASE + j as u64),
+        stratum: "first-in-process".into(),
+        n_clients: 2,
+        initial: a,
+        stat_lies: 0,
+        relative: false,
+        decoy: 0,
+        clock: Some(1_790_380_800 + j as u64 * 86_400),
+        ops,
+    }
+}
+
 /// Executes a replay record in a fresh process and returns the violation it reports, if any.
 fn run_isolated(rf: &ReplayFile, tmp: &Path) -> Option<Violation> {
     std::fs::write(tmp, serde_json::to_string(rf).unwrap())
@@ -469,7 +509,9 @@ fn cmd_replay(args: &Args) -> i32 {
     let ctx = Arc::new(PoolCtx::new(rf.pool.clone(), known_ids(&env_path("VERIF_DIR", "/verif"))));
     let dirs = make_real_dirs(&ctx.images);
     let mut sim = new_sim(&ctx, &dirs, "replay");
-    if let Err(m) = sim.calibrate() {
+    if rf.first_in_process {
+        println!("(no calibration load: the scenario's first load is the first of this process)");
+    } else if let Err(m) = sim.calibrate() {
         println!("note: calibration load failed: {m}");
     }
     if sim.bypass {
@@ -598,6 +640,7 @@ fn cmd_run(args: &Args) -> i32 {
     let mut diff_probes = 0u64;
     let mut distinct_tables_swept = 0usize;
     let mut executed: u64 = 0;
+    let mut first_runs: u64 = 0;
     let mut v0_len = 0usize;
     let mut pool_classes: BTreeMap<String, usize> = BTreeMap::new();
 
@@ -805,6 +848,82 @@ fn cmd_run(args: &Args) -> i32 {
             }
         }
 
+        // First-in-process stratum (as built, round 20, after seeded change M214: row layout
+        // learned ONCE, from the first data row the process ever parses). Every run of the batch
+        // is preceded, in its process, by the calibration load of the shipped list — so whatever a
+        // loader learns from the first file it sees, it always learnt from the same file. Here
+        // each scenario runs in a process of its own whose first load is the scenario's: every
+        // rendered image in turn as the first file, then the shipped list (or another image),
+        // then the first again, each load judged as usual.
+        let mut first_found: Vec<(u64, Violation, Scenario)> = Vec::new();
+        if !bypass {
+            let n_first: usize = if args.tier == "thorough" { 1024 } else { ctx.images.len().saturating_sub(1).min(128) };
+            let next = std::sync::atomic::AtomicUsize::new(0);
+            let results: std::sync::Mutex<Vec<(u64, Violation, Scenario)>> = std::sync::Mutex::new(Vec::new());
+            std::thread::scope(|sc| {
+                for w in 0..args.workers.max(1) {
+                    let (next, results, ctx, dirs) = (&next, &results, &ctx, &dirs);
+                    sc.spawn(move || loop {
+                        let j = next.fetch_add(1, std::sync::atomic::Ordering::Relaxed);
+                        if j >= n_first {
+                            break;
+                        }
+                        let s = first_scenario(base_seed, j, ctx.images.len());
+                        let (s2, pool2) = extract(&s, &ctx.images);
+                        let rf = ReplayFile {
+                            property: PROPERTY.into(),
+                            oracle: String::new(),
+                            message: String::new(),
+                            base_seed,
+                            run_index: FIRST_RUN_BASE + j as u64,
+                            original_ops: s.ops.len(),
+                            shrink_executions: 0,
+                            pool: pool2,
+                            scenario: s2,
+                            first_in_process: true,
+                        };
+                        if let Some(v) = run_isolated(&rf, &dirs.root.join(format!("first.{w}.json"))) {
+                            results.lock().unwrap().push((j as u64, v, s));
+                        }
+                    });
+                }
+            });
+            first_runs = n_first as u64;
+            first_found = results.into_inner().unwrap();
+            first_found.sort_by_key(|(j, _, _)| *j);
+        }
+        if let Some((j, v, s)) = first_found.first().cloned() {
+            let iso = dirs.root.join("first.shrink.json");
+            let mk = |sc: &Scenario, v: &Violation, execs: usize| {
+                let (s2, pool2) = extract(sc, &ctx.images);
+                ReplayFile {
+                    property: PROPERTY.into(),
+                    oracle: v.oracle.clone(),
+                    message: v.message.clone(),
+                    base_seed,
+                    run_index: FIRST_RUN_BASE + j,
+                    original_ops: s.ops.len(),
+                    shrink_executions: execs,
+                    pool: pool2,
+                    scenario: s2,
+                    first_in_process: true,
+                }
+            };
+            let mut isolated = |sc: &Scenario| -> Option<Violation> { run_isolated(&mk(sc, &v, 0), &iso) };
+            let sh = shrink::shrink(&mut isolated, &s, &v, 40);
+            let rf = mk(&sh.scenario, &sh.violation, sh.executions);
+            let p = write_replay(&verif, &rf);
+            let mut vv = sh.violation;
+            vv.message = format!(
+                "[first load of a fresh process: {} of {} such runs failed] {} [replay {}]",
+                first_found.len(),
+                first_runs,
+                vv.message,
+                p.display()
+            );
+            violations.push((FIRST_RUN_BASE + j, vv, Some(rf.scenario)));
+        }
+
         // Minimise and record the lowest-index violation per oracle. A violation counts only if it
         // reproduces from its scenario alone in a FRESH PROCESS (the replay contract); if the code
         // under test carries state from one run to the next (a process-wide cache, say), a run of
@@ -867,6 +986,7 @@ fn cmd_run(args: &Args) -> i32 {
                     shrink_executions: execs,
                     pool: pool2,
                     scenario: s2,
+                    first_in_process: false,
                 }
             };
             let mut isolated = |s: &Scenario| -> Option<Violation> {
@@ -950,6 +1070,7 @@ fn cmd_run(args: &Args) -> i32 {
                         clock: None,
                         ops: vec![],
                     }),
+                    first_in_process: false,
                 };
                 write_replay(&verif, &rf).display().to_string()
             }
@@ -1055,6 +1176,7 @@ fn cmd_run(args: &Args) -> i32 {
             "clock_seam_works": clock_ok,
             "runs_per_hour": if wall > 0.0 { (executed as f64 / wall * 3600.0) as u64 } else { 0 },
             "monotonic_clock_seam_works": mono_ok,
+            "first_in_process_runs": first_runs,
             "simulated_time": format!("{} s of simulated elapsed time passed inside stalled reads (counter stalled_simulated_seconds; the monotonic clock behind std::time::Instant and the wall clock behind Epoch::now are both simulated for the code under test and advance only through stalls and SetClock operations); the unchanged tree has no timer, sleep or deadline and reads neither clock (counter monotonic_clock_reads_by_loader), so its step budget is counted in read calls", out_counters.get(C::stalled_simulated_seconds)),
             "counters": Value::Object(cmap),
             "hard_faults_fired_by_offset_class": Value::Object(by_class),
